@@ -52,6 +52,62 @@ def sel_first(n, cats=None, subs=None):
     return ob
 
 
+# ----------------------------------------------------------------------------- 1b. fuzzy() conditions
+FUZZY_RULES = '''
+[Typo]
+match: fuzzy("AB", 9001)
+category: CF
+subcategory: SF
+
+[Field]
+match: fuzzy(field.k, "ABA")
+category: CK
+
+[Plain]
+match: contains("B")
+category: CB
+'''
+FALPHA = 'ABx'
+FLEN = 4
+
+
+def fuzzy_rules(flen=4, focus='description'):
+    """fuzzy() as a rule condition.  difflib hashes characters, so each path holds ONE concrete description (bounded-exhaustive
+    over a small alphabet); the threshold stays symbolic.  Expected winner: the independent reference interpreter (harness.ref:
+    a sliding window and a written-out Ratcliff/Obershelp similarity - no difflib, no tally code)."""
+    from harness import tmpl
+    import ast as _ast
+    global FLEN
+    FLEN = flen
+
+    def core(desc='xAB', fk='', thr=0.6):
+        reset_tally_caches()
+        desc = _ast.literal_eval(repr(desc))
+        fk = _ast.literal_eval(repr(fk))
+        values = {9001: thr}
+        eng = tmpl.load(FUZZY_RULES, values)
+        txn = _mk_txn(desc, 5, fk, 'S', 2024, 12, 7)
+        res = eng.match(dict(txn))
+        winner, truth = tmpl.oracle_first_match_ref(eng, dict(txn), values)
+        exp = (False, '', '', '') if winner is None else (True, winner.merchant, winner.category, winner.subcategory)
+        return post((res.matched, res.merchant, res.category, res.subcategory) == exp and res.matched_rule is winner)
+
+    def ob_description(desc: str, thr: float) -> bool:
+        """
+        pre: len(desc) <= FLEN and all(c in FALPHA for c in desc) and 0.0 < thr <= 1.0
+        post: _
+        """
+        return core(desc=desc, thr=thr)
+
+    def ob_field(fk: str, desc: str) -> bool:
+        """
+        pre: len(fk) <= FLEN + 1 and all(c in 'AB' for c in fk) and len(desc) <= 1 and all(c in 'Bx' for c in desc)
+        post: _
+        """
+        return core(desc=desc, fk=fk)
+    return {'description': ob_description, 'field': ob_field}[focus]
+
+
 # ----------------------------------------------------------------------------- 2. real conditions
 DLEN = 3
 SLEN = 2
@@ -351,6 +407,11 @@ def obligations(tier, seed):
     from harness import tmpl as _t
     tnames = list(_t.TEMPLATES)
     q = tier == 'quick'
+    for focus in ['description', 'field']:
+        fl = 4 if q else 5
+        obs.append(Obligation(id=f'fuzzy-{focus}', factory='fuzzy_rules', params={'flen': fl, 'focus': focus}, reals=True, timeout=170 if q else 900, group='fuzzy() conditions',
+                              bounds=f'3 rules (fuzzy("AB", t), fuzzy(field.k, "ABA"), contains("B")); ' + (f'description <= {fl} chars over {FALPHA!r} (one concrete text per path), symbolic threshold in (0, 1]' if focus == 'description'
+                                                                                                          else f'field value <= {fl + 1} chars over "AB", description <= 1 char over "Bx"')))
     dl, sl = (2, 1) if q else (3, 2)
     for t in tnames:
         obs.append(Obligation(id=f'real-{t}', factory='real_conditions', params={'tname': t, 'dlen': dl, 'slen': sl, 'refcheck': True},
